@@ -446,7 +446,10 @@ class Resolver:
                 # value taken from the backend registry
                 if self._local_from_registry(f.id, finfo):
                     return [fac for _n, fac in self.backend_factories()]
-                # a parameter that is called: unknown callable
+                # a parameter that is called: the callables passed at every call site of this function (one level, all sites must resolve)
+                via = self._param_callables(f.id, finfo)
+                if via:
+                    return via
                 return [f"param:{f.id}"]
             return [f"unknown:{f.id}"]
         if isinstance(f, ast.Attribute):
@@ -504,6 +507,86 @@ class Resolver:
                     return out
             return ["unknown:subscript"]
         return ["unknown:expr"]
+
+    def call_sites(self, finfo):
+        """[(caller FuncInfo, Call node)] for every resolved call of `finfo` in the package (reverse call graph, built once)."""
+        if not hasattr(self, "_rev"):
+            self._rev = {}
+            self._building_rev = True
+            try:
+                for g in self.index.functions.values():
+                    for n in walk_no_nested(g.node):
+                        if isinstance(n, ast.Call):
+                            try:
+                                cs = self.callees(n, g, {})
+                            except Exception:
+                                cs = []
+                            for c in cs:
+                                fi = getattr(c, "finfo", c)
+                                if isinstance(fi, FuncInfo):
+                                    self._rev.setdefault(fi.key, []).append((g, n))
+            finally:
+                self._building_rev = False
+        return self._rev.get(finfo.key, [])
+
+    def _param_callables(self, pname, finfo):
+        if getattr(self, "_building_rev", False) or getattr(self, "_in_param", False):
+            return None
+        params = [a.arg for a in finfo.node.args.posonlyargs + finfo.node.args.args]
+        if pname not in params and pname not in [a.arg for a in finfo.node.args.kwonlyargs]:
+            return None
+        pos = params.index(pname) if pname in params else None
+        if pos is not None and finfo.cls is not None and params and params[0] in ("self", "cls"):
+            pos -= 1
+        sites = self.call_sites(finfo)
+        if not sites:
+            return None
+        out = []
+        self._in_param = True
+        try:
+            for g, call in sites:
+                arg = None
+                for kw in call.keywords:
+                    if kw.arg == pname:
+                        arg = kw.value
+                if arg is None and pos is not None and 0 <= pos < len(call.args) and not any(isinstance(a, ast.Starred) for a in call.args[: pos + 1]):
+                    arg = call.args[pos]
+                if arg is None:
+                    # default value of the parameter
+                    a = finfo.node.args
+                    names = [x.arg for x in a.posonlyargs + a.args]
+                    dmap = dict(zip(names[len(names) - len(a.defaults):], a.defaults))
+                    arg = dmap.get(pname)
+                    if arg is None:
+                        return None
+                    vals = self.callable_values(arg, finfo, {})
+                else:
+                    vals = self.callable_values(arg, g, {})
+                if not vals:
+                    return None
+                out.extend(v[0] for v in vals)
+        finally:
+            self._in_param = False
+        uniq, seen = [], set()
+        for o in out:
+            k = getattr(o, "key", repr(o))
+            if k not in seen:
+                seen.add(k)
+                uniq.append(o)
+        return uniq
+
+    def owned_by(self, finfo, roots, _seen=None):
+        """True if `finfo` is one of `roots` (keys, prefix match for nested functions) or a helper all of whose callers are, transitively."""
+        _seen = _seen if _seen is not None else set()
+        if any(finfo.key == r or finfo.key.startswith(r + ".<locals>") or finfo.key.startswith(r + ".") for r in roots):
+            return True
+        if finfo.key in _seen:
+            return True  # a cycle among helpers adds no new caller
+        _seen.add(finfo.key)
+        sites = self.call_sites(finfo)
+        if not sites:
+            return False
+        return all(self.owned_by(g, roots, _seen) for g, _c in sites)
 
     def _local_from_registry(self, name, finfo):
         for n in walk_no_nested(finfo.node):
